@@ -63,6 +63,9 @@ func candidates(c FileCase) []Cand {
 	var out []Cand
 	for i, e := range c.Entries {
 		out = append(out, Cand{e.User, e.Password}, Cand{e.Password, e.User}, Cand{e.User, e.Password + "x"}, Cand{e.User, ""}, Cand{"", e.Password}, Cand{e.User + "x", e.Password})
+		// what the store itself holds is not a credential: the digest of the password (as written
+		// in the file), the digest of the user name
+		out = append(out, Cand{e.User, hexsha(e.Password)}, Cand{hexsha(e.User), e.Password}, Cand{hexsha(e.User), hexsha(e.Password)})
 		if len(c.Entries) > 1 {
 			o := c.Entries[(i+1)%len(c.Entries)]
 			out = append(out, Cand{e.User, o.Password})
@@ -169,6 +172,10 @@ func TestFile(t *testing.T) {
 			}
 			seen[u] = true
 			e := Entry{User: u, Password: word.Draw(t, "password"), Fields: 2}
+			if rapid.IntRange(0, 7).Draw(t, "hexToken") == 0 {
+				// a password that happens to look like a digest: 64 lower-case hex characters
+				e.Password = hexsha("token-" + u)
+			}
 			if rapid.Bool().Draw(t, "three") {
 				e.Fields = 3
 				e.MountPoint = rapid.SampledFrom([]string{"tenant1", "tenant2", "mp", "_default", ""}).Draw(t, "mp")
@@ -194,7 +201,8 @@ func checkStatic(t ev.TB, c StaticCase, labels ...string) {
 	if err != nil {
 		ev.Fail(t, "cred-static", c, "StaticHandler: %v", err)
 	}
-	cands := append([]Cand{{c.User, c.Password}, {c.Password, c.User}, {c.User, c.Password + "x"}, {c.User + "x", c.Password}, {"", ""}, {c.User, ""}, {"", c.Password}}, c.Cands...)
+	cands := append([]Cand{{c.User, c.Password}, {c.Password, c.User}, {c.User, c.Password + "x"}, {c.User + "x", c.Password}, {"", ""}, {c.User, ""}, {"", c.Password},
+		{c.User, hexsha(c.Password)}, {hexsha(c.User), c.Password}, {hexsha(c.User), hexsha(c.Password)}}, c.Cands...)
 	// the same characters split differently between the two fields must not be admitted
 	whole := c.User + c.Password
 	for i := 0; i <= len(whole); i++ {
